@@ -322,7 +322,7 @@ def oracle(seed, tier):
                     viol.append({"what": "degenerate parameters (%s): non-standard exception" % name, "world_json": wj, "probe": "degenerate-parameter:%s" % name})
                     break
         pstat[name] = outcome
-    return {"violations": viol[:40], "summary": {"cases": cases, "violations": len(viol), "nontrivial": nontriv, "by_location_class": loc, "degenerate_parameter_worlds": pstat}, "samples": samples}
+    return {"violations": trim_violations(viol, 40), "summary": {"cases": cases, "violations": len(viol), "nontrivial": nontriv, "by_location_class": loc, "degenerate_parameter_worlds": pstat}, "samples": samples}
 
 
 def correspondence(seed, tier):
